@@ -621,7 +621,11 @@ class SigmaCorrelationRule(SigmaRuleBase, ProcessingItemTrackingMixin):
         aliases = correlation_rule.get("aliases")
         if aliases is not None:
             if isinstance(aliases, dict):
-                aliases = SigmaCorrelationFieldAliases.from_dict(aliases)
+                try:
+                    aliases = SigmaCorrelationFieldAliases.from_dict(aliases)
+                except sigma_exceptions.SigmaCorrelationRuleError as e:
+                    errors.append(e)
+                    aliases = SigmaCorrelationFieldAliases()
             else:
                 errors.append(
                     sigma_exceptions.SigmaCorrelationRuleError(
@@ -633,12 +637,16 @@ class SigmaCorrelationRule(SigmaRuleBase, ProcessingItemTrackingMixin):
 
         # Condition - can be either a dict (basic condition) or a string (extended condition)
         condition_value = correlation_rule.get("condition")
-        condition: SigmaCorrelationCondition | SigmaExtendedCorrelationCondition
+        # stays None if the condition can't be parsed and the error is collected
+        condition: SigmaCorrelationCondition | SigmaExtendedCorrelationCondition | None = None
 
         if condition_value is not None:
             if isinstance(condition_value, dict):
                 # Basic condition
-                condition = SigmaCorrelationCondition.from_dict(condition_value, source=source)
+                try:
+                    condition = SigmaCorrelationCondition.from_dict(condition_value, source=source)
+                except sigma_exceptions.SigmaCorrelationConditionError as e:
+                    errors.append(e)
             elif isinstance(condition_value, str):
                 # Extended condition - only valid for temporal types
                 if correlation_type not in (
